@@ -70,6 +70,17 @@ class Ctx:
         setattr(self, key, out)
         return out
 
+    def goblverif(self):
+        if getattr(self, "_goblverif", None):
+            return self._goblverif
+        out = self.path("goblverif")
+        p = subprocess.run(["go", "build", "-tags", "verif", "-o", out, "./cmd/goblverif"], cwd=REPO, env=GOENV,
+                           capture_output=True, text=True)
+        if p.returncode != 0:
+            raise Infra("cmd/goblverif (hook) does not build:\n%s" % p.stderr[-3000:])
+        self._goblverif = out
+        return out
+
     def gobl(self):
         if self._gobl:
             return self._gobl
